@@ -1,5 +1,8 @@
 import XixiKV.Proofs.EngineMerge.AdoptOpen
 import XixiKV.Properties.C02
+import XixiKV.Proofs.ConcMerge
+import XixiKV.Model.Lockset
+import XixiKV.Generated.Skeletons
 /-!
 # C06 — Merge preserves every value and reclaims the garbage
 
@@ -227,6 +230,69 @@ example : (merge C02.exSt [0]).2 = .ok →
     (by decide) (by rw [← h])
   exact this.2.2.2.1
 #guard (match (merge C02.exSt [0]).2 with | .ok => true | _ => false)
+
+/-! ## "writes and deletes that race with the merge are kept with their final live outcome":
+    all interleavings of concurrent `Put` / `Delete` / `Get` with the merge scan
+
+Model: `Model/ConcMerge.lean` — the clients of `Model/Conc.lean` (any number of threads, arbitrary
+scheduler) plus the merging goroutine: `mstart` fixes the boundary `n` (needs `db.mu` free), one
+`mvisit` per old record reads the index atomically and rewrites the record iff the index still
+points at it, `mfinish` writes the marker.  The log a restart replays after adopting the finished
+merge is `out ++ log.drop n`.  (The byte level — files, hint file, adoption steps — is the
+sequential part above; this part is about interleavings.) -/
+
+open XixiKV.Conc XixiKV.ConcMerge in
+/-- **C06, concurrent.**  In every state reachable under any schedule in which a merge has finished
+    and `db.mu` is free — whatever ran during and after the scan — the restart that adopts the merged
+    files recovers exactly the live mapping. -/
+theorem C06_concurrent_merge {a : GM} {n : Nat} {out : List Rec}
+    (h : ReachableM Shape.allTrue true a) (hm : a.m = .done n out) (hw : a.g.writer = none) :
+    recovered (adopted a.g n out) = absMap a.g :=
+  merge_preserves h hm hw
+
+open XixiKV.Conc XixiKV.ConcMerge in
+/-- While the scan is running, or after it was abandoned, nothing is adopted: a restart replays the
+    plain log and recovers the live mapping. -/
+theorem C06_concurrent_unfinished {a : GM} (h : ReachableM Shape.allTrue true a)
+    (hw : a.g.writer = none) : recovered a.g.log = absMap a.g :=
+  unfinished_merge_harmless h hw
+
+open XixiKV.Conc XixiKV.ConcMerge in
+/-- "the directory holds only the merged live records plus post-merge writes": the rewritten records
+    are puts, at most one per key, each copied from an old position, and each is still the live
+    record of its key or superseded by a record written after the merge started. -/
+theorem C06_concurrent_output {a : GM} (h : ReachableM Shape.allTrue true a) :
+    match a.m with
+    | .idle => True
+    | .scanning n _ out => n ≤ a.g.log.length ∧ OutOK a.g n out
+    | .done n out => n ≤ a.g.log.length ∧ OutOK a.g n out :=
+  merge_out_ok h
+
+open XixiKV.Conc XixiKV.ConcMerge in
+/-- The premise "the boundary is fixed while holding `db.mu`" is necessary: without it a finished
+    merge loses an acknowledged write (a Put appends, the merge starts and scans, the Put updates
+    the index; live value 10, after adoption the key is gone). -/
+theorem C06_merge_needs_lock :
+    ∃ a n out, ReachableM Shape.allTrue false a ∧ a.m = .done n out ∧ a.g.writer = none ∧
+      (∀ t, a.g.pc t = .idle) ∧ absMap a.g 1 = some 10 ∧ recovered (adopted a.g n out) 1 = none :=
+  merge_needs_lock
+
+open XixiKV.Conc XixiKV.ConcMerge in
+/-- non-vacuity: a Delete and a Put race with a two-record scan; the rewritten record of key 1 is
+    stale and the tombstone written after the start wins; key 2 keeps its post-merge value -/
+theorem C06_concurrent_example :
+    ∃ a, execM Shape.allTrue true raceSchedule initM = some a ∧
+      a.m = .done 2 [.put 2 20, .put 1 10] ∧ a.g.writer = none ∧
+      absMap a.g 1 = none ∧ absMap a.g 2 = some 21 ∧
+      recovered (adopted a.g 2 [.put 2 20, .put 1 10]) 1 = none ∧
+      recovered (adopted a.g 2 [.put 2 20, .put 1 10]) 2 = some 21 :=
+  raceSchedule_runs
+
+set_option maxRecDepth 100000 in
+/-- In the generated lockset table of the current tree `DB.Merge` reads `olderFiles` (the set of
+    files to merge, hence the boundary) in the W section of `db.mu` in which it rotates the active
+    file — the premise `startInLock = true` of `C06_concurrent_merge`. -/
+theorem C06_generated : Lockset.mergeStartInLock Generated.locksetTable = true := by decide
 
 end XixiKV.C06
 
